@@ -47,7 +47,7 @@ ASSUMPTIONS = [
 OUTCOMES = ['pass', 'mismatch', 'exception', 'expected_exc', 'exit_test', 'all_skipped', 'import_failure', 'compile_error',
             'bad_directive', 'system_exit', 'keyboard_interrupt']
 FEATURES = ['prints', 'replace_stdout', 'simplefilter', 'filterwarnings', 'showwarning', 'warn', 'await', 'sleep', 'pending_task',
-            'stdout_in_func']
+            'stdout_in_func', 'close_stdout', 'close_stdout_with']
 
 IMPORT_KINDS = ['clean', 'raises', 'syntax_error', 'sibling', 'sibling_raises', 'deep', 'init_raises', 'edits_path', 'edits_path_raises',
                 'edits_path_front', 'edits_path_front_raises']
@@ -63,6 +63,10 @@ FEATURE_LINES = {
     'sleep': ['>>> import asyncio', '>>> async def _co():', '...     await asyncio.sleep(0)', '...     return 1', '>>> r = await _co()'],
     'pending_task': ['>>> import asyncio', '>>> async def _leave():', '...     asyncio.ensure_future(asyncio.sleep(30))',
                      '>>> await _leave()'],
+    # the doctest closes the stream it finds installed as sys.stdout (xdoctest's capture stream): whatever run() does about
+    # that, the process must get its own sys.stdout back
+    'close_stdout': ['>>> import sys', '>>> sys.stdout.close()'],
+    'close_stdout_with': ['>>> import sys', '>>> with sys.stdout:', "...     print('closing on exit')"],
     'stdout_in_func': ['>>> import sys, io', '>>> def _swap():', '...     sys.stdout = io.StringIO()', "...     print('lost')",
                        '>>> _swap()'],
 }
@@ -256,6 +260,8 @@ def _terminator_reachable(case):
     feats = case.get('features', [])
     if 'simplefilter' in feats and 'warn' in feats and feats.index('simplefilter') < feats.index('warn'):
         return False
+    if 'close_stdout' in feats or 'close_stdout_with' in feats:
+        return False       # reading the closed capture stream ends the run before the terminating statement
     return True
 
 
